@@ -238,7 +238,7 @@ pub fn run(thorough: bool) {
         probes: vec![Arc::new(ReopenProbe)],
         pools: vec![1],
         time_budget_s: if thorough { 2400 } else { 40 },
-        max_states: if thorough { 300_000 } else { 6_000 },
+        max_states: if thorough { 300_000 } else { 20_000 },
         stop_on_violation: true,
     });
     content_sweep(&mut rep, thorough);
